@@ -82,6 +82,18 @@ def oracle_score(est: Any, gt: Any, mode: MatchingMode, transforms: Any) -> Tupl
     raise ValueError("unsupported mode for 2D")
 
 
+def d16_instance(est: Any, gt: Any, mode: MatchingMode, oracle_value: float) -> bool:
+    """Deterministic classification of known finding D16 (see known_findings.json, property C06)."""
+    if mode not in (MatchingMode.IOU2D, MatchingMode.IOU3D) or not isinstance(est, DynamicObject) or not oracle_value > 1e-8:
+        return False
+    if not G.boxes_collinear(O.box_of(est), O.box_of(gt)):
+        return False
+    from perception_eval.evaluation.matching import IOU2dMatching, IOU3dMatching
+
+    lib = (IOU2dMatching if mode == MatchingMode.IOU2D else IOU3dMatching)(est, gt).value
+    return lib == 0.0
+
+
 def better(mode: MatchingMode, a: float, b: float) -> bool:
     return a > b if MAXIMIZE[mode] else a < b
 
@@ -310,6 +322,11 @@ def judge(ctx: Ctx, a: Dict[str, Any], snap_e, snap_g, results, clauses) -> None
                         or (j in inv_pairs and at_least_as_good(mode, tab.score[inv_pairs[j], j], s))
                     )
                     mech = "C02/blocking_incompatible_pair"
+                if not good and d16_instance(snap_e[i], snap_g[j], mode, float(s)):
+                    # the library scored this overlapping pair 0.0: known finding D16 of C06 (GEOS overlay on footprints
+                    # with an edge on a common line within rounding), a defect of the score, not of the assignment
+                    ctx.count("C02.skipped_known_finding_C06_collinear_iou")
+                    return
                 if not good:
                     n_block += 1
                     ctx.violation(
@@ -415,11 +432,13 @@ def gen_matching_case(r: random.Random, max_n: int = 24, force_2d: Optional[bool
             lab = "false_positive" if (fpv or r.random() < 0.12) else r.choice(labs + (["unknown"] if r.random() < 0.1 else []))
             gts_e.append(O.obj3d(r.uniform(-spread, spread), r.uniform(-spread, spread), r.uniform(-1, 1), O.rand_yaw(r), w, l, h, lab, uuid=f"g{k}", npts=r.randint(0, 50)))
         for k in range(n_est):
+            coincident_with = None
             if gts_e and r.random() < 0.8:
                 g = r.choice(gts_e)
                 b = O.box_of(g)
                 if r.random() < 0.12:  # coincident -> exact ties
                     x, y, z, yaw, w, l, h = b
+                    coincident_with = g
                 else:
                     sig = r.choice([0.05, 0.3, 1.0, 3.0])
                     x, y, z = b[0] + r.gauss(0, sig), b[1] + r.gauss(0, sig), b[2] + r.gauss(0, 0.2)
@@ -443,6 +462,11 @@ def gen_matching_case(r: random.Random, max_n: int = 24, force_2d: Optional[bool
             if twin_of is not None:
                 eo.state.position = twin_of.state.position
                 eo.state.orientation = twin_of.state.orientation
+            elif coincident_with is not None:
+                # bit-identical pose (exact ties). A pose rebuilt from the recovered yaw would differ in the last bit,
+                # which is the input class of known finding D16 (C06) and is explored there, not here.
+                eo.state.position = coincident_with.state.position
+                eo.state.orientation = coincident_with.state.orientation
             ests_e.append(eo)
 
         def render(o):
